@@ -13,7 +13,7 @@ namespace Liftbridge.GoMini
 attribute [gomini] R.bind_ok R.bind_panic R.bind_stuck R.pure_eq
 
 section
-variable (p : Prog) (x : String → List Val → Option Val) (cb : List Stmt → St → R (Flow × St))
+variable (p : Prog) (x : Ext) (cb : List Stmt → St → R (Flow × St))
 
 @[gomini] theorem evalE_int (n : Nat) (i : Int) (st : St) : evalE p x cb (n+1) (.int i) st = .ok (.int i, st) := by rw [evalE]
 @[gomini] theorem evalE_bool (n : Nat) (b : Bool) (st : St) : evalE p x cb (n+1) (.bool b) st = .ok (.bool b, st) := by rw [evalE]
@@ -33,8 +33,12 @@ variable (p : Prog) (x : String → List Val → Option Val) (cb : List Stmt →
   rw [evalE] <;> rfl
 @[gomini] theorem lenOf_list (xs : List Val) : lenOf (.list xs) = some (Int.ofNat xs.length) := rfl
 @[gomini] theorem lenOf_nil : lenOf .nil = some 0 := rfl
+@[gomini] theorem lenOf_struct (fs : List (String × Val)) : lenOf (.struct fs) = some (Int.ofNat fs.length) := rfl
 @[gomini] theorem evalE_idx (n : Nat) (e i : Expr) (st : St) :
     evalE p x cb (n+1) (.idx e i) st = (evalE p x cb n e st >>= fun r => evalE p x cb n i r.2 >>= fun r2 =>
+      match r.1, r2.1 with
+      | .struct fs, .str k => .ok ((lookup k fs).getD .nil, r2.2)
+      | _, _ =>
       match asList r.1, r2.1 with
       | some xs, .int k =>
         if k < 0 then .panic else match xs[k.toNat]? with
@@ -108,12 +112,12 @@ variable (p : Prog) (x : String → List Val → Option Val) (cb : List Stmt →
         match r0.1, r1.1 with
         | .struct fs, [] => match lookup m fs with
           | some v => pure (v, r1.2)
-          | none => match x m [r0.1] with
-            | some v => pure (v, r1.2)
+          | none => match x m [r0.1] r1.2.eff with
+            | some v => pure (v, r1.2.log m [])
             | none => pure (.nil, r1.2.log m [])
         | .nil, _ => .panic
-        | _, _ => match x m (r0.1 :: r1.1) with
-          | some v => pure (v, r1.2)
+        | _, _ => match x m (r0.1 :: r1.1) r1.2.eff with
+          | some v => pure (v, r1.2.log m r1.1)
           | none => pure (.nil, r1.2.log m r1.1)) := by
   rw [evalE] <;> rfl
 @[gomini] theorem evalE_search (n : Nat) (ne : Expr) (i : String) (pred : Expr) (st : St) :
@@ -138,8 +142,8 @@ theorem callFn_def (f : String) (vs : List Val) (st1 : St) :
         | none, some env => cb fn.body { env := envOf env, eff := st1.eff } >>= fun r =>
             pure (flowResult r.1, { st1 with eff := r.2.eff })
         | _, _ => .stuck ("arity " ++ f)
-      | none => match x f vs with
-        | some v => pure (v, st1)
+      | none => match x f vs st1.eff with
+        | some v => pure (v, st1.log f vs)
         | none => pure (.nil, st1.log f vs)) := by
   rw [evalE.callFn] <;> rfl
 attribute [gomini] callFn_def
@@ -171,7 +175,7 @@ end
 
 /-! ### statements -/
 section
-variable (p : Prog) (x : String → List Val → Option Val)
+variable (p : Prog) (x : Ext)
 
 @[gomini] theorem exec_skip (n : Nat) (w : String) (st : St) : exec p x (n+1) (.skip w) st = .ok (.next, st) := by rw [exec]
 @[gomini] theorem exec_brk (n : Nat) (st : St) : exec p x (n+1) .brk st = .ok (.brk, st) := by rw [exec]
@@ -203,11 +207,38 @@ variable (p : Prog) (x : String → List Val → Option Val)
   rw [exec] <;> rfl
 @[gomini] theorem exec_forRange (n : Nat) (k v : Option String) (e : Expr) (body : List Stmt) (st : St) :
     exec p x (n+1) (.forRange k v e body) st = (evalE p x (runBlock (exec p x n)) n e st >>= fun r =>
+      match r.1 with
+      | .struct fs => runRangeMap (runBlock (exec p x n) body) k v fs r.2
+      | _ =>
       match asList r.1 with
       | some xs => runRange (runBlock (exec p x n) body) k v 0 xs r.2
       | none => .stuck "range over non-list") := by
   rw [exec] <;> rfl
+@[gomini] theorem exec_forC (n : Nat) (init : List Stmt) (c : Option Expr) (post body : List Stmt) (st : St) :
+    exec p x (n+1) (.forC init c post body) st = (runBlock (exec p x n) init st >>= fun r0 =>
+      match r0.1 with
+      | .next =>
+        runFor (fun s => match c with
+            | none => .ok (true, s)
+            | some ce => evalE p x (runBlock (exec p x n)) n ce s >>= fun r => truthy r.1 >>= fun b => pure (b, r.2))
+          (runBlock (exec p x n) body) (runBlock (exec p x n) post) n r0.2
+      | _ => .stuck "control flow in for-init") := by
+  rw [exec] <;> rfl
 end
+
+@[gomini] theorem runFor_succ (evc : St → R (Bool × St)) (blk post : St → R (Flow × St)) (k : Nat) (st : St) :
+    runFor evc blk post (k+1) st = (match evc st with
+    | .ok (false, st1) => .ok (.next, st1)
+    | .ok (true, st1) =>
+      match blk st1 with
+      | .ok (.next, st2) | .ok (.cont, st2) =>
+        (match post st2 with
+        | .ok (_, st3) => runFor evc blk post k st3
+        | other => other)
+      | .ok (.brk, st2) => .ok (.next, st2)
+      | other => other
+    | .panic => .panic
+    | .stuck w => .stuck w) := rfl
 
 /-! ### state and environment -/
 @[gomini] theorem St.set_env (st : St) (a : String) (v : Val) (y : String) :
@@ -260,6 +291,27 @@ end
 @[gomini] theorem binVal_str_nil (op : String) (t : String) : binVal op (.str t) .nil =
     if op = "==" then .ok (.bool false) else if op = "!=" then .ok (.bool true) else .stuck ("nil op " ++ op) := by
   simp [binVal, isNil]
-@[gomini] theorem noExt_apply (f : String) (vs : List Val) : noExt f vs = none := rfl
+@[gomini] theorem binVal_nil_str (op : String) (t : String) : binVal op .nil (.str t) =
+    if op = "==" then .ok (.bool false) else if op = "!=" then .ok (.bool true) else .stuck ("nil op " ++ op) := by
+  simp [binVal, isNil]
+@[gomini] theorem binVal_str_str (op : String) (a b : String) : binVal op (.str a) (.str b) =
+    if op = "==" then .ok (.bool (decide (a = b))) else if op = "!=" then .ok (.bool (decide (a ≠ b)))
+    else if op = "+" then .ok (.str (a ++ b)) else .stuck ("string op " ++ op) := rfl
+@[gomini] theorem noExt_apply (f : String) (vs : List Val) (eff : List (String × List Val)) : noExt f vs eff = none := rfl
+
+@[gomini] theorem runRangeMap_nil (blk : St → R (Flow × St)) (k v : Option String) (st : St) :
+    runRangeMap blk k v [] st = .ok (.next, st) := rfl
+@[gomini] theorem runRangeMap_cons (blk : St → R (Flow × St)) (k v : Option String) (key : String) (y : Val)
+    (ys : List (String × Val)) (st : St) :
+    runRangeMap blk k v ((key, y) :: ys) st =
+      (match blk (match v with | some vn => (match k with | some kn => st.set kn (.str key) | none => st).set vn y
+                               | none => (match k with | some kn => st.set kn (.str key) | none => st)) with
+      | .ok (.next, st') => runRangeMap blk k v ys st'
+      | .ok (.cont, st') => runRangeMap blk k v ys st'
+      | .ok (.brk, st') => .ok (.next, st')
+      | other => other) := rfl
+@[gomini] theorem eraseKey_nil (k : String) : eraseKey k [] = [] := rfl
+@[gomini] theorem eraseKey_cons (k a : String) (v : Val) (rest : List (String × Val)) :
+    eraseKey k ((a, v) :: rest) = if a = k then eraseKey k rest else (a, v) :: eraseKey k rest := rfl
 
 end Liftbridge.GoMini
